@@ -4,6 +4,7 @@ mod cluster;
 mod journal;
 mod panics;
 mod profiles;
+mod stream;
 mod walk;
 
 fn main() {
@@ -17,6 +18,7 @@ fn main() {
         "journal" => journal::main(&args[2..]),
         "alloc" => alloc::main(&args[2..]),
         "auth" => auth::main(&args[2..]),
+        "stream" => stream::main(&args[2..]),
         _ => {
             eprintln!("unknown command {}", args[1]);
             2
